@@ -74,6 +74,15 @@ class WireManagerBase(abc.ABC):
             wire_descriptions = [str(wire) for wire in self.wires]
             raise InconsistentGradingsError(f"Inconsistent counts on wires {wire_descriptions} ({counts})")
 
+        # the same edge in other blocks must have the same count or blockMesh will fail
+        for wire in self.wires:
+            for coincident in wire.coincident_list:
+                if coincident.grading.count != wire.grading.count:
+                    raise InconsistentGradingsError(
+                        f"Inconsistent counts on {wire} and the same edge of a neighbouring block: "
+                        f"{wire.grading.count} vs. {coincident.grading.count}"
+                    )
+
 
 class WireChopManager(WireManagerBase):
     """Responsible for conversion of user-specified Chops
